@@ -170,8 +170,12 @@ type Hooks struct {
 	OnOr func(in ssa.Instruction, a, b Val, overlap bool)
 	// OnStore observes every store of an integer into a scalar array element.
 	OnStore func(in ssa.Instruction, obj, idx int, v Val)
+	// InitGlobal fills a freshly created package-level variable from its source literal (return false: unknown contents).
+	InitGlobal func(it *Interp, g *ssa.Global, obj int) bool
 	// MaxSteps bounds the work.
 	MaxSteps int
+	// MaxForks bounds the number of undecided branches explored on both sides (0: none).
+	MaxForks int
 }
 
 // Interp is one run of the abstract interpreter.
@@ -184,9 +188,12 @@ type Interp struct {
 	steps    int
 	symInfo  map[string]Val
 	wideN    int
+	forks    int
+	pending  map[string]Finding // tentative borrow findings keyed by the value number of the difference
 	globals  map[*ssa.Global]int
 	Err      error
 	InstrsSeen map[ssa.Instruction]bool
+	ValOf    map[ssa.Value]Val // join of the abstract values each integer instruction took
 }
 
 // NewInterp creates an interpreter with an empty heap.
@@ -194,7 +201,7 @@ func NewInterp(h Hooks) *Interp {
 	if h.MaxSteps == 0 {
 		h.MaxSteps = 4000000
 	}
-	return &Interp{St: &State{}, H: h, seen: map[string]bool{}, symInfo: map[string]Val{}, globals: map[*ssa.Global]int{}, InstrsSeen: map[ssa.Instruction]bool{}}
+	return &Interp{St: &State{}, H: h, seen: map[string]bool{}, symInfo: map[string]Val{}, globals: map[*ssa.Global]int{}, InstrsSeen: map[ssa.Instruction]bool{}, ValOf: map[ssa.Value]Val{}}
 }
 
 func (it *Interp) flag(kind, msg string, in ssa.Instruction) {
@@ -211,6 +218,10 @@ func (it *Interp) flag(kind, msg string, in ssa.Instruction) {
 }
 
 func (it *Interp) note(v Val) Val {
+	if v.Sym == nil && v.Lo != nil {
+		// a fresh value number is always sound: it only ever equals itself
+		v.Sym = FreshSym("t", v.W)
+	}
 	if v.Sym != nil && v.Lo != nil {
 		if old, ok := it.symInfo[v.Sym.Key]; ok && old.W == v.W && old.Signed == v.Signed {
 			// the same concrete value was seen before: both descriptions hold, so intersect
@@ -270,6 +281,9 @@ func (it *Interp) global(g *ssa.Global) int {
 	}
 	id := it.St.Alloc("global:"+g.Name(), g.Type().(*types.Pointer).Elem(), false)
 	it.globals[g] = id
+	if it.H.InitGlobal != nil {
+		it.H.InitGlobal(it, g, id)
+	}
 	return id
 }
 
@@ -345,8 +359,12 @@ func (it *Interp) Call(fn *ssa.Function, args []AnyVal, free []AnyVal) AnyVal {
 	}
 	it.stack = append(it.stack, fn.Name())
 	defer func() { it.stack = it.stack[:len(it.stack)-1] }()
-	b := fn.Blocks[0]
-	var prev *ssa.BasicBlock
+	return it.runBlocks(f, fn.Blocks[0], nil)
+}
+
+// runBlocks executes from block b (entered from prev) until the function returns.
+func (it *Interp) runBlocks(f *frame, b, prev *ssa.BasicBlock) AnyVal {
+	fn := f.fn
 	for {
 		var next *ssa.BasicBlock
 		for _, in := range b.Instrs {
@@ -366,8 +384,36 @@ func (it *Interp) Call(fn *ssa.Function, args []AnyVal, free []AnyVal) AnyVal {
 			case *ssa.If:
 				c, ok := it.get(f, x.Cond).(Val)
 				if !ok || !c.IsConst() {
-					it.Err = &UndecidedBranch{In: x, Fn: fn}
-					return OpaqueV{"error"}
+					if it.forks >= it.H.MaxForks {
+						it.Err = &UndecidedBranch{In: x, Fn: fn}
+						return OpaqueV{"error"}
+					}
+					// fork: run both successors to the function's return on copies, then join
+					it.forks++
+					savedSt := it.St.Clone()
+					savedEnv := make(map[ssa.Value]AnyVal, len(f.env))
+					for k, v := range f.env {
+						savedEnv[k] = v
+					}
+					r1 := it.runBlocks(f, b.Succs[0], b)
+					st1, err1 := it.St, it.Err
+					it.St, f.env, it.Err = savedSt, savedEnv, nil
+					r2 := it.runBlocks(f, b.Succs[1], b)
+					err2 := it.Err
+					switch {
+					case err1 != nil && err2 != nil:
+						it.Err = err1
+						return OpaqueV{"error"}
+					case err1 != nil:
+						it.Err = nil
+						return r2
+					case err2 != nil:
+						it.Err = nil
+						it.St = st1
+						return r1
+					}
+					it.St = JoinStates(st1, it.St)
+					return JoinAny(r1, r2)
 				}
 				if c.Lo.Sign() != 0 {
 					next = b.Succs[0]
@@ -396,6 +442,15 @@ func (it *Interp) Call(fn *ssa.Function, args []AnyVal, free []AnyVal) AnyVal {
 				if it.Err != nil {
 					return OpaqueV{"error"}
 				}
+				if v, ok := in.(ssa.Value); ok {
+					if iv, ok := f.env[v].(Val); ok {
+						if old, have := it.ValOf[v]; have && old.W == iv.W {
+							it.ValOf[v] = Join(old, iv)
+						} else {
+							it.ValOf[v] = iv
+						}
+					}
+				}
 			}
 		}
 		if next == nil {
@@ -404,6 +459,65 @@ func (it *Interp) Call(fn *ssa.Function, args []AnyVal, free []AnyVal) AnyVal {
 		}
 		prev, b = b, next
 	}
+}
+
+// JoinAny joins two results.
+func JoinAny(a, b AnyVal) AnyVal {
+	switch x := a.(type) {
+	case Val:
+		if y, ok := b.(Val); ok && x.W == y.W {
+			return Join(x, y)
+		}
+	case TupleV:
+		if y, ok := b.(TupleV); ok && len(x) == len(y) {
+			out := make(TupleV, len(x))
+			for i := range x {
+				out[i] = JoinAny(x[i], y[i])
+			}
+			return out
+		}
+	case nil:
+		return b
+	}
+	return a
+}
+
+// JoinStates joins two heaps object by object (objects allocated on only one side are kept as they are).
+func JoinStates(a, b *State) *State {
+	n := len(a.Objs)
+	if len(b.Objs) > n {
+		n = len(b.Objs)
+	}
+	out := &State{Objs: make([]*Object, n)}
+	for i := 0; i < n; i++ {
+		switch {
+		case i >= len(a.Objs):
+			out.Objs[i] = b.Objs[i]
+		case i >= len(b.Objs):
+			out.Objs[i] = a.Objs[i]
+		default:
+			x, y := a.Objs[i], b.Objs[i]
+			if x.Kind == "arr" && y.Kind == "arr" && len(x.Vals) == len(y.Vals) && x.W == y.W {
+				c := *x
+				c.Vals = make([]Val, len(x.Vals))
+				for k := range x.Vals {
+					c.Vals[k] = Join(x.Vals[k], y.Vals[k])
+				}
+				out.Objs[i] = &c
+			} else {
+				out.Objs[i] = x
+			}
+		}
+	}
+	return out
+}
+
+// Finish turns the remaining tentative findings into findings.
+func (it *Interp) Finish() {
+	for _, f := range it.pending {
+		it.flag(f.Kind, f.Msg, f.Instr)
+	}
+	it.pending = nil
 }
 
 // UndecidedBranch is returned when control depends on an abstract value.
@@ -481,7 +595,7 @@ func (it *Interp) instr(f *frame, in ssa.Instruction) {
 		if iv, ok := v.(Val); ok {
 			if w, sg, isInt := intInfo(x.Type()); isInt {
 				r, lossy := Convert(iv, w, sg)
-				if lossy && w < iv.W {
+				if lossy && w < iv.W && !onlyMasked(x) {
 					// a narrowing that drops possibly-set bits is fine only when the dropped bits are consumed elsewhere;
 					// the rule decides (recorded as a finding of kind "narrow")
 					it.flag("narrow", fmt.Sprintf("conversion to %d bits may drop set bits: value up to %#x (2^%d)", w, iv.Hi, iv.Hi.BitLen()), x)
@@ -532,6 +646,31 @@ func (it *Interp) instr(f *frame, in ssa.Instruction) {
 			}
 		}
 	}
+}
+
+// onlyMasked reports whether every use of v is an AND with a constant (a bit-field extraction: the dropped bits are
+// discarded on purpose and the exactness of such packings is checked bit by bit by the bit-origin rule).
+func onlyMasked(v ssa.Value) bool {
+	refs := v.Referrers()
+	if refs == nil || len(*refs) == 0 {
+		return false
+	}
+	n := 0
+	for _, u := range *refs {
+		switch x := u.(type) {
+		case *ssa.DebugRef:
+		case *ssa.BinOp:
+			_, c1 := x.X.(*ssa.Const)
+			_, c2 := x.Y.(*ssa.Const)
+			if x.Op != token.AND || !(c1 || c2) {
+				return false
+			}
+			n++
+		default:
+			return false
+		}
+	}
+	return n > 0
 }
 
 func (it *Interp) indexAddr(f *frame, x *ssa.IndexAddr) AnyVal {
@@ -629,7 +768,11 @@ func (it *Interp) unop(f *frame, x *ssa.UnOp) {
 	case token.MUL:
 		switch p := it.get(f, x.X).(type) {
 		case PtrV:
-			f.env[x] = it.loadElem(p, x.Type())
+			lv := it.loadElem(p, x.Type())
+			if iv, ok := lv.(Val); ok {
+				lv = it.note(iv)
+			}
+			f.env[x] = lv
 		default:
 			if w, sg, isInt := intInfo(x.Type()); isInt {
 				f.env[x] = Top(w, sg)
@@ -710,10 +853,31 @@ func (it *Interp) binop(f *frame, x *ssa.BinOp) {
 		for _, g := range fl {
 			it.flag(g.Kind, g.Msg, x)
 		}
+		if len(fl) == 0 {
+			// a recognised borrow compensation settles the tentative finding of its difference
+			for _, o := range []Val{a, b} {
+				if o.Sym != nil && o.Sym.Op == "sub" {
+					if _, _, _, ok := isBorrowCompensation(a, b); ok {
+						delete(it.pending, o.Sym.Key)
+						it.seen["ok|"+o.Sym.Key] = true
+					}
+				}
+			}
+		}
 	case token.SUB:
 		var fl []Flag
 		r, fl = Sub(a, b)
 		for _, g := range fl {
+			if g.Kind == "borrow" && r.Sym != nil && !a.Signed {
+				// tentative: x - y + (lt(x,y) << k) compensates the borrow; decided when the difference is consumed
+				if it.pending == nil {
+					it.pending = map[string]Finding{}
+				}
+				if _, done := it.seen["ok|"+r.Sym.Key]; !done {
+					it.pending[r.Sym.Key] = Finding{Kind: g.Kind, Msg: g.Msg, Instr: x, Fn: x.Parent(), Stack: append([]string{}, it.stack...)}
+				}
+				continue
+			}
 			it.flag(g.Kind, g.Msg, x)
 		}
 	case token.MUL:
